@@ -484,7 +484,7 @@ func hashPool(i int) interface{} {
 		return HashC{}
 	}
 
-	return HashD{}
+	return &HashD{} // registered through a pointer, as values that travel as pointers are
 }
 
 func init() {
@@ -610,7 +610,7 @@ func c14Hash0(cc c14Cell, env *Env) CellResult {
 		res.Exhaustive, res.CapHit = false, line
 	}
 
-	res.Outcomes["hash0 "+strings.Fields(line+" ?")[0]]++
+	res.Outcomes["hash0 "+strings.Fields(line + " ?")[0]]++
 	res.Sample = map[string]interface{}{"pair": cc.Src + "->" + cc.Dst, "empty_type_registry": true, "result": line}
 
 	return res
@@ -788,7 +788,7 @@ func init() {
 		Cells: c14Cells, Run: c14Run,
 		Rule: "(transfer) all 27 assignments of cache names {a,b,c} to exporter-only / importer-only / both x every entry set of <=2 entries over the C13 alphabet x backend pairing x request perturbation " +
 			"{none, types hash altered, types hash missing, name altered, name missing}, through an in-process RoundTripper that calls the Export handler (no sockets); " +
-			"(faults) the response body cut, and separately the body read failing, at EVERY byte offset; (hash) every registration sequence of length <=4 with repetitions over a pool of 4 types (340) x every way of splitting it into variadic GobRegister calls, each in a fresh process",
+			"(faults) the response body cut, and separately the body read failing, at EVERY byte offset; (hash) every registration sequence of length <=4 with repetitions over a pool of 4 types (struct, nested struct, map, and a struct registered through a pointer) (340) x every way of splitting it into variadic GobRegister calls, each in a fresh process",
 		Assumptions: []string{
 			"net/http is used through Handler.ServeHTTP and a custom RoundTripper only; no scheduler is active",
 			"GobTypesHashReset is not part of the statement (fresh processes are) and is not used",
